@@ -118,6 +118,9 @@ def cases(shard, nshards, seed, tier):
         if mine():
             yield {"family": "T1-rigid-large-assembly", "file": "tests/1gid.cif.gz", "base_ops": [{"op": "copies", "n": 8}],
                    "twin": {"kind": "T1", "ops": [{"op": "rigid", "seed": f"{seed}:large:{t}", "trans": [37.0, -112.0, 255.0]}]}}
+    for m in (2, 5, 9):
+        if mine():
+            yield {"family": "T4-written-by-the-library-model-selection", "file": "tests/2HY9.cif", "base_ops": [], "twin": {"kind": "T4W", "model": m}}
     # rigid motion of the file itself, with chains of nearly superposed copies (a-b and b-c closer than 0.5 A, a-c not)
     for fn in [f for f in files if f.endswith(("1ATO.pdb", "1A1T_1_B.cif", "1E7K_1_C.cif", "1HMH_1_E.cif", "184D.cif"))]:
         for t in range(2 if tier == "quick" else 10):
@@ -337,6 +340,30 @@ def run_case(case, rec):
                     return
                 last[r.chain] = k
         twin, keymap, chainmap = _relabel_twin(base, tw)
+    elif tw["kind"] == "T4W":
+        # format twins written by the LIBRARY: a selection of models of an ensemble (numbers 2, 5, 9) as one table, written
+        # as mmCIF and - after fitting - as PDB; the requested model read back from either text
+        from rnapolis import parser_v2
+        from vmon import emit
+
+        rows = []
+        for m in (2, 5, 9):
+            rows += emit.rows_from_structure(gen3d.load(case["file"], m))
+        for i, r in enumerate(rows, 1):
+            r["serial"] = i
+        try:
+            df = parser_v2.parse_cif_atoms(emit.emit_cif(rows))
+            cif_text = parser_v2.write_cif(df)
+            pdb_text = parser_v2.write_pdb(parser_v2.fit_to_pdb(df))
+            base = emit.read_text(cif_text, ".cif", tw["model"])
+        except Exception as e:
+            rec.undecided("twin.interactions-equal", f"{type(e).__name__} while writing / reading the base")
+            return
+        try:
+            twin = emit.read_text(pdb_text, ".pdb", tw["model"])
+        except Exception as e:
+            rec.violation("twin.no-crash", {"twin": tw, "exception": repr(e)[:300]}, mechanism=f"crash:{type(e).__name__}")
+            return
     elif tw["kind"] == "T1R":
         # a rigid motion of the FILE: the text of a table (with chains of nearly superposed copies, which the reader
         # thins out) and the text of the same table in another frame - an axis permutation plus a decimal translation,
@@ -412,7 +439,7 @@ def run_case(case, rec):
         return
     rec.mark_nontrivial(len(ra["inter"]) > 0)
     ia = ra["inter"]
-    if tw["kind"] in ("T4", "pair"):
+    if tw["kind"] in ("T4", "T4W", "pair"):
         # the PDB reader has no label identity: compare on author identity
         strip = lambda lst: [(x[0], (None, x[1][1]), (None, x[2][1])) + tuple(x[3:]) for x in lst]
         ia = strip(ia)
